@@ -351,6 +351,13 @@ def f_exists_idx(p):
     p.rule("%s(1) :- e3(1,y,z), y = z." % a)
     p.rule("%s(2) :- e3(2,y,z), y + 3 < z." % a)
     p.rule("%s(10) :- e3(0,y,z), y > z, z > 35." % a)
+    # the same relation probed through a second index (bound last column): the condition reads the other two columns, which
+    # sit at different positions in that index' order.  k is 0..2, so the first condition has no witness and the second
+    # nearly always has one - on the true columns
+    zc = r.sample(range(40), 3)
+    p.rule("%s(%d) :- e3(k,y,%d), k > y + 30." % (a, 100 + zc[0], zc[0]))
+    p.rule("%s(%d) :- e3(k,y,%d), k <= y + 1." % (a, 200 + zc[1], zc[1]))
+    p.rule("%s(%d) :- e3(k,%d,z), z < k." % (a, 300 + zc[2], zc[2]))
     b = p.fresh("hitn")
     p.decl(b, [("x", "number")], p.repr_for(1))
     p.rule("%s(x) :- n1(x), e3(2,y,z), y = z + 1." % b)
@@ -406,6 +413,21 @@ def f_eqrel_input(p):
     return m
 
 
+def f_io_relation(p):
+    """a relation that is both .input and .output (no rules of its own) and feeds a derived relation"""
+    r = p.r
+    n = p.fresh("io")
+    p.decl(n, [("x", "number"), ("y", "number")], r.choice(["", "btree", "brie"]))
+    dom = p.meta["domain"]
+    p.facts[n] = sorted(set(("%d" % r.randrange(dom), "%d" % r.randrange(dom)) for _ in range(r.randrange(2, 15))))
+    p.meta.setdefault("io_rels", []).append(n)
+    m = p.fresh("iod")
+    p.decl(m, [("x", "number"), ("z", "number")])
+    p.rule("%s(x,z) :- %s(x,y), %s(y,z)." % (m, n, n))
+    p.rule("%s(x,y) :- %s(x,y), n1(x)." % (m, n))
+    return m
+
+
 def f_typed_input(p):
     """input relations with unsigned / float / symbol columns and non-default storage"""
     r = p.r
@@ -430,7 +452,7 @@ def f_typed_input(p):
 
 
 FRAGMENTS = [f_exists, f_exists_idx, f_facts, f_index_brie, f_outer_aggr2, f_filter, f_join, f_join3, f_tc, f_mutual, f_negation, f_aggr, f_outer_aggr, f_strings, f_records, f_adt, f_eqrel, f_multi,
-             f_arith, f_indexed, f_eqrel_input, f_typed_input]
+             f_arith, f_indexed, f_eqrel_input, f_typed_input, f_io_relation]
 
 
 def f_input_derived(p):
@@ -453,7 +475,7 @@ def gen_c21(seed, size="quick"):
     """programs for the embedding-API histories: no relation that is both input and derived (the history model keeps inputs and
     derived relations apart); often with eqrel relations, eqrel / brie / typed input relations"""
     rr = random.Random(seed ^ 0x21)
-    always = tuple(f for f, pr in ((f_eqrel, 0.3), (f_eqrel_input, 0.4), (f_typed_input, 0.4)) if rr.random() < pr)
+    always = tuple(f for f, pr in ((f_eqrel, 0.3), (f_eqrel_input, 0.4), (f_typed_input, 0.4), (f_io_relation, 0.5)) if rr.random() < pr)
     return gen_c03(seed, size, exclude=(f_input_derived,), always=always)
 
 
